@@ -35,7 +35,7 @@ ASSUMPTIONS = [
     "token classes are disjoint (a token is not at once a keyword, a variable name, a hedge name and a term name)",
     "resource exhaustion (recursion depth of very long antecedents) is not decided",
 ]
-FLOORS = {"X8": 6, "PD": 4, "PD2": 4, "F1": 3, "F-end": 3, "X2": 30, "X3": 10, "X4": 6, "O9": 4}
+FLOORS = {"X8": 6, "PD": 4, "PD2": 4, "F1": 3, "F-end": 3, "X2": 30, "X4": 6, "O9": 4}
 
 ALLOWED = {"SyntaxError", "ValueError", "KeyError", "LookupError"}
 
@@ -97,11 +97,14 @@ def make_atom_classifier(r: Resolver, stack_var: str | None) -> Callable[[ast.AS
                     return "andor"
                 if any(s[0] == "attr" and s[2] == "hedge" for s in walk(b)) and any(s == ("global", "fuzzylite.library.settings") for s in walk(b)):
                     return "hedge"
-            if stack_var and isinstance(e, ast.Compare) and isinstance(e.left, ast.Call) and isinstance(e.left.func, ast.Name) and \
-                    e.left.func.id == "len" and e.left.args and isinstance(e.left.args[0], ast.Name) and e.left.args[0].id == stack_var:
-                kk = const_value(r.term(e.comparators[0], node))
-                if isinstance(kk, int):
-                    return f"depth|{op}|{kk}"
+            if stack_var:
+                # len(<operand stack>) compared with a constant, in either order and possibly through a temporary
+                is_len = lambda x: x[0] == "call" and x[1] == ("global", "len") and len(x[2]) == 1 and not token_like(x[2][0])  # noqa: E731
+                flip = {"<": ">", ">": "<", "<=": ">=", ">=": "<=", "==": "==", "!=": "!="}
+                if is_len(a) and isinstance(const_value(b), int) and op in flip:
+                    return f"depth|{op}|{const_value(b)}"
+                if is_len(b) and isinstance(const_value(a), int) and op in flip:
+                    return f"depth|{flip[op]}|{const_value(a)}"
         if t[0] == "call" and t[1] == ("global", "isinstance") and len(t[2]) == 2 and t[2][1] == ("global", "fuzzylite.hedge.Any"):
             return "any"
         return None
@@ -117,7 +120,7 @@ def split_call(t: Term) -> Term | None:
             return t
         if t[0] == "call" and t[1][0] == "global" and t[1][1] in ("filter",) and len(t[2]) == 2:
             t = t[2][1]
-        elif t[0] == "call" and t[1][0] == "global" and t[1][1] in ("list", "tuple", "iter", "reversed") and t[2]:
+        elif t[0] == "call" and t[1][0] == "global" and t[1][1] in ("list", "tuple", "iter", "reversed", "enumerate") and t[2]:
             t = t[2][0]
         elif t[0] == "filtered":
             t = t[1]
@@ -189,25 +192,48 @@ def tokenisers(check: Check, rule: str = "X8") -> None:
 
 
 def state_variables(fn, consts: dict[str, int]) -> set[str]:
-    """Locals whose every assignment is an expression over the flag constants."""
-    cands: dict[str, bool] = {}
+    """Locals whose every assignment is an expression over the flag constants (and, for updates, over the local itself).
+    Side effect: names bound exactly once to an expression over the flag constants (compound states such as `s_hedge | s_term`)
+    are added to `consts` with their value."""
+    from ..fsm import Unknown, _const_arith
+
+    assigns: dict[str, list[ast.AST]] = {}
     for s in ast.walk(fn.analysis_node):
         if isinstance(s, ast.Assign) and len(s.targets) == 1 and isinstance(s.targets[0], ast.Name):
-            name = s.targets[0].id
-            names = {x.id for x in ast.walk(s.value) if isinstance(x, ast.Name)}
-            flagexpr = bool(names & set(consts)) and all(isinstance(x, (ast.Name, ast.BinOp, ast.BitOr, ast.IfExp, ast.Call, ast.Load, ast.Attribute, ast.Constant, ast.expr_context)) or True for x in ast.walk(s.value))
-            only_flags_top = _is_flag_expr(s.value, consts)
-            cands[name] = cands.get(name, True) and only_flags_top
-    return {k for k, v in cands.items() if v}
+            assigns.setdefault(s.targets[0].id, []).append(s.value)
+        elif isinstance(s, ast.AnnAssign) and isinstance(s.target, ast.Name) and s.value is not None:
+            assigns.setdefault(s.target.id, []).append(s.value)
+        elif isinstance(s, ast.AugAssign) and isinstance(s.target, ast.Name):
+            assigns.setdefault(s.target.id, []).append(ast.BinOp(left=ast.Name(id=s.target.id, ctx=ast.Load()), op=s.op, right=s.value))
+        elif isinstance(s, (ast.For, ast.comprehension)) and isinstance(s.target, ast.Name):
+            assigns.setdefault(s.target.id, []).append(ast.Constant(value=None))
+    changed = True
+    while changed:
+        changed = False
+        for name, vals in assigns.items():
+            if name in consts or len(vals) != 1 or not _is_flag_expr(vals[0], consts):
+                continue
+            try:
+                consts[name] = _const_arith(vals[0], consts)
+                changed = True
+            except Unknown:
+                pass
+    out = set()
+    for name, vals in assigns.items():
+        if name in consts:
+            continue
+        if all(_is_flag_expr(v, consts, itself=name) for v in vals) and any(_is_flag_expr(v, consts) for v in vals):
+            out.add(name)
+    return out
 
 
-def _is_flag_expr(e: ast.AST, consts: dict[str, int]) -> bool:
+def _is_flag_expr(e: ast.AST, consts: dict[str, int], itself: str | None = None) -> bool:
     if isinstance(e, ast.Name):
-        return e.id in consts
+        return e.id in consts or e.id == itself
     if isinstance(e, ast.BinOp) and isinstance(e.op, (ast.BitOr, ast.BitAnd)):
-        return _is_flag_expr(e.left, consts) and _is_flag_expr(e.right, consts)
+        return _is_flag_expr(e.left, consts, itself) and _is_flag_expr(e.right, consts, itself)
     if isinstance(e, ast.IfExp):
-        return _is_flag_expr(e.body, consts) and _is_flag_expr(e.orelse, consts)
+        return _is_flag_expr(e.body, consts, itself) and _is_flag_expr(e.orelse, consts, itself)
     return False
 
 
@@ -384,12 +410,26 @@ def rule_automaton(check: Check) -> None:
     ex = extract(m, head, classes, init)
     # which list is the antecedent / consequent: by the attribute they are joined into after the loop
     role: dict[str, str] = {}
-    for s in ast.walk(fn.analysis_node):
+
+    def lists_behind(e: ast.AST, node, depth: int = 0) -> set[str]:
+        """Token lists an expression is computed from, followed through local temporaries."""
+        out: set[str] = set()
+        for x in ast.walk(e):
+            if isinstance(x, ast.Name):
+                if x.id in lists:
+                    out.add(lists[x.id])
+                elif depth < 3:
+                    for d in r.cfg.defs_reaching(x.id, node):
+                        if d.kind == "value" and d.value is not None and d.node is not node:
+                            out |= lists_behind(d.value, d.node, depth + 1)
+        return out
+
+    for n_ in r.cfg.stmt_nodes():
+        s = n_.ast
         if isinstance(s, ast.Assign) and isinstance(s.targets[0], ast.Attribute) and isinstance(s.targets[0].value, ast.Attribute):
             owner = s.targets[0].value.attr
-            for x in ast.walk(s.value):
-                if isinstance(x, ast.Name) and x.id in lists:
-                    role[owner] = lists[x.id]
+            for lf in lists_behind(s.value, n_):
+                role[owner] = lf
     if set(role) != {"antecedent", "consequent"}:
         raise AnalysisError("Rule.parse: antecedent/consequent token lists not recognised")
 
@@ -791,10 +831,13 @@ def load_atomicity(check: Check, only: str | None = None) -> None:
                       f"`{unparse(late[0].ast)[:70]}` (line {late[0].lineno}) can fail before the previous parse is discarded: after a failed load "
                       "the rule still reports loaded and is evaluated with its old antecedent/consequent", loc(fn, late[0] if late else fn.node))
         # the commit is last: no raise (explicit) and no call reachable after it
-        commit_last = len(stores) == 1 and not mutations
-        if commit_last:
-            after = cfg.reach([s for s, _ in stores[0].succ])
-            commit_last = not any(isinstance(x.ast, ast.Raise) or cfg.calls_in(x) for x in after if x.kind in ("stmt", "test", "iter", "with"))
+        # (a guard clause duplicates the commit: every store site is judged on what can follow it)
+        real = [n for n in stores if not n.copy] or stores
+        commit_last = bool(stores) and not mutations
+        for st_ in (real if commit_last else []):
+            after = cfg.reach([s for s, _ in st_.succ])
+            if any(isinstance(x.ast, ast.Raise) or cfg.calls_in(x) or x in real for x in after if x.kind in ("stmt", "test", "iter", "with") and x is not st_):
+                commit_last = False
         check.require(commit_last, "O9", f"{qual}/commit-last",
                       f"self.{attr} is written once, after the last statement that can fail" if commit_last else
                       f"self.{attr} becomes non-empty before the last statement that can fail: a failed load can leave the rule reporting loaded",
@@ -825,10 +868,6 @@ def run(check: Check) -> None:
     antecedent_automaton(check)
     consequent_automaton(check)
     exception_discipline(check)
-    shunting.stack_safety(check, "Function.infix_to_postfix")
-    shunting.stack_safety(check, "Antecedent.load")
-    shunting.parse_arity_guard(check)
-    shunting.rejection_checks(check)
     tokenisers(check)
     pushdown.infix_to_postfix(check)
     pushdown.parse_postfix(check)
